@@ -8,7 +8,7 @@ from .. import refs
 from ..core import Workload
 from ..env import ptn
 
-VALS = [0.0, 1.0, -1.0, None]        # None -> a generic value drawn per case
+VALS = [0.0, 1.0, -1.0, None]        # None -> a generic value drawn per case (magnitudes from 1e-12 to 1e6: the operator is linear in its parameters)
 
 
 def two_site_sum(L, d, terms2, terms1):
@@ -112,8 +112,20 @@ def check_model(ctx, name, L, p, d=None, label=()):
     ctx.ok('model.charge-conserving', int(H.qD[0][0]) == int(H.qD[-1][0]), f'boundary charges {H.qD[0]} {H.qD[-1]} differ for a Hamiltonian', detail)
     M = refs.dense_operator(H.A)
     R = reference(name, L, p, d)
-    sc = max(1.0, float(np.abs(R).max()))
+    sc = float(np.abs(R).max()) if np.abs(R).max() > 0 else 1.0
     ctx.close('model.dense==formula', float(np.abs(M - R).max()), 1e-12 * sc * L, f'{name} MPO differs from the documented formula', detail)
+    # every single term must be present with relative accuracy: compare term by term where the parameters differ by many orders
+    for k in range(3):
+        if p[k] != 0 and abs(p[k]) < 1e-6 * max(abs(x) for x in p):
+            pk = tuple(p[j] if j == k else 0.0 for j in range(3))
+            if not all_chains_vanish(name, L, pk):
+                Rk = reference(name, L, pk, d)
+                rest = reference(name, L, tuple(0.0 if j == k else p[j] for j in range(3)), d) if any(p[j] != 0 for j in range(3) if j != k) else 0 * Rk
+                if np.abs(Rk).max() > 1e-3 * 1e-12 * sc * L:
+                    ctx.event('small_term_resolved')
+                # the small term is visible only if it exceeds the rounding of the large ones
+                if np.abs(Rk).max() > 100 * 1e-16 * sc:
+                    ctx.close('model.small-term-present', float(np.abs((M - rest) - Rk).max()), 0.01 * float(np.abs(Rk).max()) + 1e-15 * sc * L, f'term {k} with tiny coefficient {p[k]} is missing or wrong', detail)
     ctx.close('model.hermitian', float(np.abs(M - M.conj().T).max()), 1e-12 * sc * L, 'not Hermitian for real parameters', detail)
     ctx.close('model.as_matrix', float(np.abs(np.asarray(H.as_matrix()) - M).max()), 1e-12 * sc * L, 'as_matrix differs from the independent contraction', detail)
 
@@ -125,7 +137,7 @@ def grid_case(ctx, idx, rng):
     k = idx // len(models)
     L = 1 + k % lmax
     combo = combos[(k // lmax) % len(combos)]
-    p = tuple(float(VALS[c]) if VALS[c] is not None else float(rng.choice([-1, 1]) * rng.uniform(0.2, 2.0)) for c in combo)
+    p = tuple(float(VALS[c]) if VALS[c] is not None else float(rng.choice([-1, 1]) * rng.uniform(0.2, 2.0) * rng.choice([1, 1, 1, 1e-9, 1e-12, 1e6])) for c in combo)
     cls = tuple('z' if c == 0 else ('p' if c == 1 else ('m' if c == 2 else 'g')) for c in combo)
     if all_chains_vanish(name, L, p):
         ctx.case((name, 'identically-zero-excluded'), nontrivial=False)
@@ -143,7 +155,7 @@ def random_case(ctx, idx, rng):
     while dd ** (lmax + 1) <= cap and lmax < 9:
         lmax += 1
     L = int(rng.integers(1, lmax + 1))
-    p = tuple(float(x) for x in rng.normal(size=3) * rng.choice([1, 10, 0.01]))
+    p = tuple(float(x) for x in rng.normal(size=3) * rng.choice([1, 10, 0.01, 1e-9, 1e-13, 1e7], size=3))
     ctx.case((name, f'L{min(L, 5)}', 'random') + ((f'd{d}',) if d else ()), sample={'model': name, 'L': L, 'params': p, 'd': d}, info={'model': name, 'L': L, 'params': p, 'd': d})
     check_model(ctx, name, L, p, d)
 
